@@ -18,7 +18,8 @@ PROP = "C10"
 MAX_STEPS = 160
 
 BEHAVIOURS = ("value", "none", "callresult", "unserializable", "oversized", "raise-app", "raise-mapped", "raise-unmapped",
-              "raise-unserializable-args", "pending-ok", "pending-fail", "pending-forever", "progress-then-value")
+              "raise-unserializable-args", "pending-ok", "pending-fail", "pending-forever", "progress-then-value",
+              "coroutine-ok", "coroutine-fail", "pending-absorbs-cancel")
 
 
 class Unserializable:
@@ -159,6 +160,8 @@ class World(StackWorld):
             if b != "pending-forever":
                 self.user_futs.append(inv)
             return f
+        if b in ("coroutine-ok", "coroutine-fail", "pending-absorbs-cancel"):
+            return self.async_endpoint(inv, b)
         if b == "progress-then-value":
             if details is not None and details.progress is not None:
                 for i in range(inv.nprogress):
@@ -166,6 +169,40 @@ class World(StackWorld):
                     inv.progress_emitted += 1
             return inv.value
         raise HarnessError(b)
+
+    def async_endpoint(self, inv, b):
+        """Endpoints whose result goes through one more hop than a bare future: a coroutine awaiting the user's
+        future (asyncio: a Task - its completion and the INVOCATION's continuation are separate loop iterations), or
+        a future whose canceller / cancellation handler completes it with a value instead of failing."""
+        world = self
+        if self.fwname == "tx":
+            from twisted.internet import defer
+            if b == "pending-absorbs-cancel":
+                f = defer.Deferred(canceller=lambda d: d.callback(inv.value))
+                inv.user_future = f
+                self.user_futs.append(inv)
+                return f
+            f = self.fw.new_future(self)
+            inv.user_future = f
+            self.user_futs.append(inv)
+
+            async def co():
+                return await f
+            return defer.ensureDeferred(co())
+        import asyncio
+        f = self.fw.new_future(self)
+        inv.user_future = f
+        self.user_futs.append(inv)
+
+        async def co():
+            if b == "pending-absorbs-cancel":
+                try:
+                    return await f
+                except asyncio.CancelledError:
+                    world.run.probe("endpoint-absorbed-cancellation")
+                    return inv.value
+            return await f
+        return co()
 
     # --- actions ---------------------------------------------------------------------------------------------------------------
     def extra_actions(self):
@@ -238,7 +275,7 @@ class World(StackWorld):
     def resolve_user(self):
         ch = self.run.ch
         inv = self.user_futs.pop(ch.choose(len(self.user_futs), "which-future"))
-        if inv.behaviour == "pending-ok":
+        if inv.behaviour in ("pending-ok", "coroutine-ok", "pending-absorbs-cancel"):
             self.fw.call(self, self.fw.resolve_future, inv.user_future, inv.value)
         else:
             self.fw.call(self, self.fw.reject_future, inv.user_future, RuntimeError("late failure %s" % inv.token))
@@ -342,13 +379,22 @@ class World(StackWorld):
                 continue
             tkind, m = terms[0]
             must_error = b in ("unserializable", "oversized", "raise-app", "raise-mapped", "raise-unmapped", "raise-unserializable-args",
-                               "pending-fail")
-            may_error = inv.interrupts > 0 and b in ("pending-ok", "pending-fail", "pending-forever") or \
+                               "pending-fail", "coroutine-fail")
+            may_error = inv.interrupts > 0 and b in ("pending-ok", "pending-fail", "pending-forever", "coroutine-ok", "coroutine-fail",
+                                                     "pending-absorbs-cancel") or \
                 (inv.interrupts > 0 and self.fwname == "aio")  # asyncio: the continuation runs one iteration later
+            if tkind == "error" and inv.interrupts:
+                run.probe("interrupted-invocation-ended-in-error")
+            elif inv.interrupts:
+                run.probe("interrupted-invocation-ended-in-yield:%s" % b)
             if must_error and tkind != "error":
                 run.violate("C10.error-when-due", "yield-instead-of-error:%s" % b, "invocation %d" % inv.id)
-            elif not must_error and tkind == "error" and not may_error:
-                run.violate("C10.error-when-due", "error-instead-of-yield:%s:%s" % (b, m.error), "invocation %d" % inv.id)
+            elif not must_error and tkind == "error":
+                # an interrupted endpoint may end in the cancellation error (runtime_error without arguments); any
+                # other ERROR for an endpoint that returned a value is wrong
+                cancellation = m.error == "wamp.error.runtime_error" and not m.args and not m.kwargs
+                if not may_error or not cancellation:
+                    run.violate("C10.error-when-due", "error-instead-of-yield:%s:%s" % (b, m.error), "invocation %d: %r %r" % (inv.id, m.args, m.kwargs))
             if tkind == "yield":
                 exp_a, exp_k = self.expected_yield(inv)
                 got_a = jsonish(list(m.args or []))
@@ -374,7 +420,7 @@ class World(StackWorld):
 
     def expected_yield(self, inv):
         b = inv.behaviour
-        if b in ("value", "pending-ok", "progress-then-value"):
+        if b in ("value", "pending-ok", "progress-then-value", "coroutine-ok", "pending-absorbs-cancel"):
             return [jsonish(inv.value)], {}
         if b == "none":
             return [None], {}
